@@ -297,6 +297,7 @@ func (eng *Engine) verifyFunc(p *packages.Package, key string) (*FuncVerifier, e
 		fv.modsAny = true
 	}
 	fv.scanBoxed(fd.Body)
+	fv.scanAliases(fd.Body)
 	sig := fo.Type().(*types.Signature)
 	st := &State{vars: map[types.Object]string{}, ghost: map[string]Val{}, heaps: map[string]string{}, pc: "true", locks: map[string]string{}, anc: map[int]bool{0: true}}
 	fv.entry = &State{vars: map[types.Object]string{}, ghost: map[string]Val{}, heaps: map[string]string{}, pc: "true", locks: map[string]string{}}
@@ -846,4 +847,89 @@ func findNode(body *ast.BlockStmt, path string) ast.Node {
 		cur = found
 	}
 	return cur
+}
+
+// scanAliases finds locals of the form  x := &p.f[.g...]  (p a pointer-typed variable, x never reassigned):
+// such an interior pointer is treated as a name for the location p.f..., so reads and writes through x are
+// reads and writes of the enclosing object.
+func (fv *FuncVerifier) scanAliases(body *ast.BlockStmt) {
+	info := fv.info()
+	fv.aliases = map[types.Object]ast.Expr{}
+	assigned := map[types.Object]int{}
+	ast.Inspect(body, func(n ast.Node) bool {
+		switch s := n.(type) {
+		case *ast.AssignStmt:
+			for _, l := range s.Lhs {
+				if id, ok := l.(*ast.Ident); ok {
+					if o := info.ObjectOf(id); o != nil {
+						assigned[o]++
+					}
+				}
+			}
+		case *ast.IncDecStmt:
+			if id, ok := s.X.(*ast.Ident); ok {
+				if o := info.ObjectOf(id); o != nil {
+					assigned[o]++
+				}
+			}
+		}
+		return true
+	})
+	rootIsPtrVar := func(e ast.Expr) bool {
+		for {
+			switch x := e.(type) {
+			case *ast.SelectorExpr:
+				if sel, ok := info.Selections[x]; !ok || sel.Kind() != types.FieldVal {
+					return false
+				}
+				e = x.X
+			case *ast.ParenExpr:
+				e = x.X
+			case *ast.Ident:
+				o, ok := info.ObjectOf(x).(*types.Var)
+				if !ok {
+					return false
+				}
+				if _, isAlias := fv.aliases[o]; isAlias {
+					return true
+				}
+				_, isPtr := o.Type().Underlying().(*types.Pointer)
+				return isPtr && assigned[o] <= 1
+			default:
+				return false
+			}
+		}
+	}
+	ast.Inspect(body, func(n ast.Node) bool {
+		s, ok := n.(*ast.AssignStmt)
+		if !ok || s.Tok != token.DEFINE || len(s.Lhs) != 1 || len(s.Rhs) != 1 {
+			return true
+		}
+		id, ok := s.Lhs[0].(*ast.Ident)
+		if !ok {
+			return true
+		}
+		u, ok := unparen(s.Rhs[0]).(*ast.UnaryExpr)
+		if !ok || u.Op != token.AND {
+			return true
+		}
+		sel, ok := unparen(u.X).(*ast.SelectorExpr)
+		if !ok {
+			return true
+		}
+		o := info.ObjectOf(id)
+		if o == nil || assigned[o] != 1 {
+			return true
+		}
+		if t := info.TypeOf(sel); t == nil {
+			return true
+		} else if _, isStruct := t.Underlying().(*types.Struct); !isStruct {
+			return true
+		}
+		if rootIsPtrVar(sel) {
+			fv.aliases[o] = sel
+			delete(fv.boxed, o)
+		}
+		return true
+	})
 }
